@@ -7,7 +7,7 @@ EXTENDS InterchainMC, Json
 VARIABLES inp, pick
 gvars == <<vars, inp, pick>>
 GenInit == Init /\ inp = <<>> /\ pick = "req"
-Kinds == <<"req", "req", "greq", "rcpt", "rcpt", "rcpt", "empty", "empty">>
+Kinds == <<"req", "req", "greq", "breq", "breq", "rcpt", "rcpt", "rcpt", "empty", "empty">>
 \* receipts are aimed at transactions the machine knows (plus now and then at unknown ones)
 KnownIds == DOMAIN g.st \cup DOMAIN g.kid
 GenNext ==
@@ -16,6 +16,8 @@ GenNext ==
   /\ LET kind == pick IN
      \/ /\ kind = "req"
         /\ LET t == RandomElement(Reqs) IN Block(t, FALSE) /\ inp' = Append(inp, [op |-> "tx", typ |-> "REQ", dst |-> t.dst, idx |-> t.idx, T |-> t.T, grp |-> FALSE])
+     \/ /\ kind = "breq"     \* a one-to-one request to D2 (unordered in the generator's configuration: repeats get through the index check)
+        /\ LET t == RandomElement(BReqs) IN Block(t, FALSE) /\ inp' = Append(inp, [op |-> "tx", typ |-> "REQ", dst |-> t.dst, idx |-> t.idx, T |-> t.T, grp |-> FALSE])
      \/ /\ kind = "greq"
         /\ LET t == RandomElement(GReqs) IN Block(t, FALSE) /\ inp' = Append(inp, [op |-> "tx", typ |-> "REQ", dst |-> t.dst, idx |-> t.idx, T |-> t.T, grp |-> TRUE])
      \/ /\ kind = "rcpt"
